@@ -153,4 +153,26 @@ theorem sync_idem (managed : α → Bool) (wanted old : List α) (before : Optio
     · have h' : (kept managed wanted old).length ≤ p := by omega
       simp [Nat.min_eq_right h', List.take_of_length_le h', List.drop_of_length_le h']
 
+/-! ### lists split into blocks (for `sync_block`) -/
+
+theorem filter_none {p : α → Bool} : ∀ {l : List α}, (∀ c ∈ l, p c = false) → l.filter p = []
+  | [], _ => rfl
+  | a :: l, h => by
+    simp [List.filter_cons, h a (by simp), filter_none (l := l) (fun c hc => h c (by simp [hc]))]
+
+theorem filter_all {p : α → Bool} : ∀ {l : List α}, (∀ c ∈ l, p c = true) → l.filter p = l
+  | [], _ => rfl
+  | a :: l, h => by
+    simp [List.filter_cons, h a (by simp), filter_all (l := l) (fun c hc => h c (by simp [hc]))]
+
+theorem findIdx?_prefix {p : α → Bool} : ∀ {B : List α} (t : List α), (∀ c ∈ B, p c = false) →
+    (B ++ t).findIdx? p = (t.findIdx? p).map (· + B.length)
+  | [], t, _ => by simp
+  | b :: B, t, h => by
+    have hb : p b = false := h b (by simp)
+    simp only [List.cons_append, List.findIdx?_cons, hb]
+    rw [findIdx?_prefix t (fun c hc => h c (by simp [hc]))]
+    cases t.findIdx? p <;> simp [Nat.add_assoc]
+
+
 end Pyc.Sync
